@@ -185,12 +185,15 @@ CLAIMED["C02"] = dict(
          "ModulePass.apply_to_clone): the copy is isomorphic to the source (independent oracle), inside references point into the copy and outside "
          "references are unchanged, the source and the pre-existing destination IR are untouched (text + structural invariants), edits of the copy are "
          "invisible in the source; directed root ops that use their own results. Additionally, under discharged contracts for symbolic list lengths: "
-         "Operation.clone_without_regions (operand/successor remapping through the mappers, dictionaries copied not shared, results registered, frames) and "
+         "Operation.clone_without_regions (operand/successor remapping through the mappers, dictionaries copied not shared, results registered, frames) , "
          "Operation.clone (after its final walk every operand of every op of the copy is the image of the source operand under the FINAL value mapper, "
-         "source operand lists untouched; Region.clone_into is an assumed callee contract there). Exploration is the honest level for the tree-level statement.",
-    note="Bounded stand-in for the whole-tree statement, never counted as proved; Operation.create trusted in the kernel proof; recursion of clone/clone_into not proved.",
+         "source operand lists untouched, every value defined by or inside the op registered) and Region.clone_into in the form Operation.clone calls it "
+         "(every block argument and inside value registered, outside entries keep their image, pre-existing dictionaries and operand lists untouched) - the two "
+         "verified against each other's discharged contracts. Exploration is the honest level for the tree-level statement.",
+    note="Bounded stand-in for the whole-tree statement (isomorphism), never counted as proved; Operation.create and the block-list primitives are trusted models in the "
+         "kernel proofs; termination of the clone/clone_into recursion not proved; clone_into(clone_operands=True) bounded only.",
     design="§4 C02",
-    technique="bounded runtime-contract check with independent isomorphism oracle (stand-in) + discharged contracts on clone_without_regions and on the remap walk of Operation.clone",
+    technique="bounded runtime-contract check with independent isomorphism oracle (stand-in) + discharged contracts on clone_without_regions, Operation.clone and Region.clone_into (mutually recursive contracts, ghost definition of inside-values)",
 )
 
 CLAIMED["C14"] = dict(
